@@ -4,7 +4,7 @@ SPEC = {
     "gen": [],
     "streams": [
         {"name": "mkvs-map", "cmd": "mkvs",
-         "args": {"quick": ["-mode", "c03", "-cases", "300"], "thorough": ["-mode", "c03", "-cases", "12000"]},
+         "args": {"quick": ["-mode", "c03", "-cases", "300"], "thorough": ["-mode", "c03", "-cases", "6000"]},
          "search_args": ["-mode", "c03", "-cases", "3000"]},
     ],
     "trusted_base": [
@@ -14,6 +14,7 @@ SPEC = {
         "modelled, not verified: the byte-level iterator state machine treeIterator.doNext (the model uses the specification iterator over the in-order contents; tied to the code by the correspondence runs), node cache LRU / lazy loading / (de)serialization (dimensions of the runs), tidwall/btree",
     ],
     "assumptions": [
+        "known findings (known_findings.json): a failing case is attributed to C03:node-capacity-not-above-path-depth iff 0 < node_cap <= (deepest path of the reference trie)+1, else to C03:embedded-leaf-evicted-under-dirty-internal-node iff the value capacity is one of the small ones and an embedded leaf existed (proper-prefix key pair, or the VerifScan anomaly was seen); every other failure, in particular any failure with node_cap above the path depth and no small value capacity, or with a small value capacity but prefix-free keys, is a violation",
         "keys are byte strings (every element < 256); keys and values are non-nil slices (Tree.Insert(nil, v) and Overlay.Insert(k, nil) are out of contract: nil/empty confusion)",
         "an overlay is not modified while one of its iterators is in use; reopen (Close + NewWithRoot) happens with an empty overlay stack",
         "Overlay.Commit removes the remaining dirty keys in Go map order; the model uses list order (removals of distinct keys commute on the abstract map, proved)",
